@@ -90,4 +90,47 @@ def encoder_roundtrip_natural [DecidableEq β] (acyclic : List (DQuad β) → Pr
     acyclic d → ¬ schemeClash cfg d → ord.Perm (defaultOrd d) →
     ∃ doc out, encode cfg d ord = some doc ∧ toRdf mode11 base doc = some out ∧ Spec.IsoQ out d
 
+/-! ### Non-vacuity: a dataset with a named graph, a shared blank node and a language-tagged literal -/
+
+namespace Witness
+
+def s : Term Nat := .iri (asc "http://e.org/s")
+def p : Str := asc "http://e.org/v/p"
+
+/-- `<s> <p> _:0 . _:0 <p> "x" . _:0 <p> "y"@en <s>` -/
+def d : List (DQuad Nat) :=
+  [⟨⟨s, p, .bnode 0⟩, none⟩,
+   ⟨⟨.bnode 0, p, .lit (asc "x") xsdString none⟩, none⟩,
+   ⟨⟨.bnode 0, p, .lit (asc "y") rdfLangString (some (asc "en"))⟩, some s⟩]
+
+/-- the default-graph part: what the encoder can write -/
+def d0 : List (DQuad Nat) := d.take 2
+
+def name (n : Nat) : Str := natDigits n
+
+/-- `{"v": "http://e.org/v/", "q": {"@id": "v:p", "@container": "@set"}}` -/
+def ctx : Json :=
+  .obj [(asc "v", .str (asc "http://e.org/v/")), (asc "q", .obj [(kId, .str (asc "v:p")), (kContainer, .str kSet)])]
+
+def ch : Choices :=
+  { mode11 := true, base := none, context := some ctx, nest := true, lists := true, anonTop := true,
+    natives := true, useType := true, compactGroups := true, shape := 1, seed := 0 }
+
+def cfg : Cfg Nat := { base := none, prefixes := [(asc "v", asc "http://e.org/v/")], buffered := false, label := name }
+
+theorem wf : WFDataset d := by decide
+
+/-- the hypotheses of `write_denotes` are satisfiable, and on this instance the writer keeps a compacted,
+    validated document (it does not fall back) -/
+theorem validated : (tryWrite name d ch).isSome = true := by decide
+
+/-- the certificate of `encoder_roundtrip_partial` holds on this instance -/
+theorem cert : encCert true none cfg d0 (defaultOrd d0) = true := by decide
+
+/-- the conditions of the full statement hold on this instance as well -/
+theorem natural : WFDataset d0 ∧ defaultGraphOnly d0 = true ∧ noNativeTyped d0 = true ∧ schemeClash cfg d0 = false := by
+  decide
+
+end Witness
+
 end RdfModel.C10
